@@ -14,13 +14,23 @@ use stun_types::attribute::*;
 use stun_types::message::*;
 use stun_types::TransportType;
 
-pub const ADDRS: [&str; 6] = ["4:c0000201:3478", "4:c0000201:3479", "6:20010db8000000000000000000000001:3478", "4:0a000001:9",
+pub const ADDRS: [&str; 8] = ["4:c0000201:3478", "4:c0000201:3479", "6:20010db8000000000000000000000001:3478", "4:0a000001:9",
     // an IPv4-mapped IPv6 address and the IPv4 address it maps: they are different socket addresses
-    "6:00000000000000000000ffffc0000207:3478", "4:c0000207:3478"];
+    "6:00000000000000000000ffffc0000207:3478", "4:c0000207:3478",
+    // one link-local IP and port under two scope ids: two different socket addresses
+    "6:fe800000000000000000000000000001%2:3478", "6:fe800000000000000000000000000001%3:3478"];
 pub const TIDS: [u128; 5] = [0x01, 0x0203_0405_0607_0809_0a0b_0c0d, 0xffff_ffff_ffff_ffff_ffff_ffff, 0x2112_a442, 0x7000_0000_0000_0000_0000_0001];
 
 pub fn addr_of(s: &str) -> SocketAddr {
     let p: Vec<&str> = s.split(':').collect();
+    // "6:<ip hex>%<scope id>:<port>": an IPv6 address with a scope id (a different socket address from the
+    // same IP and port with another scope id)
+    if let Some((ip, scope)) = p[1].split_once('%') {
+        let b = unhex(ip).unwrap();
+        let mut a = [0u8; 16];
+        a.copy_from_slice(&b);
+        return SocketAddr::V6(std::net::SocketAddrV6::new(a.into(), p[2].parse().unwrap(), 0, scope.parse().unwrap()));
+    }
     let kv_s = format!("x fam={} ip={} port={}", p[0], p[1], p[2]);
     let (_, kv) = Kv::parse(&kv_s);
     crate::typed::parse_addr(&kv)
@@ -29,6 +39,7 @@ pub fn addr_of(s: &str) -> SocketAddr {
 pub fn addr_str(a: SocketAddr) -> String {
     match a {
         SocketAddr::V4(a) => format!("4:{}:{}", hex(&a.ip().octets()), a.port()),
+        SocketAddr::V6(a) if a.scope_id() != 0 => format!("6:{}%{}:{}", hex(&a.ip().octets()), a.scope_id(), a.port()),
         SocketAddr::V6(a) => format!("6:{}:{}", hex(&a.ip().octets()), a.port()),
     }
 }
@@ -59,9 +70,19 @@ fn tid_hex(t: TransactionId) -> String {
 
 impl AgentRun {
     pub fn new(tr: &str, local: &str, shift_ms: u64) -> Self {
+        Self::new_based(tr, local, shift_ms, false)
+    }
+
+    /// `past`: the base lies a few minutes in the PAST (so a stray clock read lands in the middle of the
+    /// history's time line); otherwise ~11 days in the future (a stray clock read is far before everything)
+    pub fn new_based(tr: &str, local: &str, shift_ms: u64, past: bool) -> Self {
         let transport = if tr == "tcp" { TransportType::Tcp } else { TransportType::Udp };
-        // far in the future: a stray Instant::now() inside the agent would be ~11 days off
-        let base = Instant::now() + Duration::from_secs(1_000_000) + Duration::from_millis(shift_ms);
+        let future = Instant::now() + Duration::from_secs(1_000_000) + Duration::from_millis(shift_ms);
+        let base = if past {
+            Instant::now().checked_sub(Duration::from_secs(300) + Duration::from_millis(shift_ms % 60_000)).unwrap_or(future)
+        } else {
+            future
+        };
         AgentRun { agent: StunAgent::builder(transport, addr_of(local)).build(), base }
     }
 
@@ -225,8 +246,9 @@ pub fn exec(kv: &Kv) -> String {
     let local = kv.get("local").to_string();
     let shift: u64 = kv.get("shift").parse().unwrap_or(0);
     let mode = kv.get("mode").to_string();
+    let past = mode == "past";
     let run_plain = move || -> String {
-        let mut r = AgentRun::new(&tr, &local, shift);
+        let mut r = AgentRun::new_based(&tr, &local, shift, past);
         let mut out = vec![];
         for op in &ops {
             out.push(r.apply(op));
@@ -555,6 +577,7 @@ pub fn gen(which: &str, rng: &mut Rng, count: usize, thorough: bool, out: &mut V
                 out.push(format!("ag shift=0 mode=plain {}", rest));
                 out.push(format!("ag shift={} mode=plain {}", shift, rest));
                 out.push(format!("ag shift={} mode={} {}", rng.below(1_000_000_000), rng.pick(&["thread", "decoys", "interleaved"]), rest));
+                out.push(format!("ag shift={} mode=past {}", rng.below(60_000), rest));
             }
         }
         _ => panic!("unknown generator {which}"),
